@@ -21,3 +21,8 @@ pub static EVENTS_HANDLED: std::sync::atomic::AtomicUsize = std::sync::atomic::A
 
 /// Number of reload passes (`run_update`) finished (process-wide).
 pub static PASSES_RUN: std::sync::atomic::AtomicUsize = std::sync::atomic::AtomicUsize::new(0);
+
+/// Order in which each finished reload pass visited the assets: `(id, type)` per asset, one entry per
+/// pass (process-wide, appended by `run_update`).
+pub static PASS_LOG: std::sync::Mutex<Vec<Vec<(String, std::any::TypeId)>>> =
+    std::sync::Mutex::new(Vec::new());
